@@ -94,6 +94,20 @@ fn main() {
                 wall_limit_s: std::env::var("HCSIM_WALL_S").ok().and_then(|s| s.parse().ok()).unwrap_or(0),
             };
             println!("hcsim check {prop} tier={tier} VERIF_SEED={seed} workers={workers}");
+            // scratch directories of disk arms left behind by a killed earlier process
+            if let Ok(rd) = std::fs::read_dir("/dev/shm") {
+                for e in rd.flatten() {
+                    let name = e.file_name().to_string_lossy().to_string();
+                    if let Some(rest) = name.strip_prefix("hcsim-") {
+                        if let Some(pid) = rest.split('-').next().and_then(|p| p.parse::<u32>().ok()) {
+                            if pid != std::process::id() && !std::path::Path::new(&format!("/proc/{pid}")).exists() {
+                                let _ = std::fs::remove_dir_all(e.path());
+                                let _ = std::fs::remove_file(e.path());
+                            }
+                        }
+                    }
+                }
+            }
             let t0 = Instant::now();
             let code = props::check(&opts, t0);
             std::process::exit(code);
